@@ -281,8 +281,11 @@ reg(Row("synchronize_terminal_measurements", ("synchronize_terminal_measurements
         opts=st.fixed_dictionaries({"after": st.booleans()}), records=M(meas=0.6), weight=3))
 reg(Row("lightcone_filter", ("lightcone_filter",), lambda c, o: cirq.transformers.lightcone_filter(c, context=ctx(o)),
         records=M(cc=0.2, chan=0.05), tags=False, deep=False, dist_only=True, sub_policy="any", weight=2))
+# insertion_sort swaps operations iff cirq.commutes(op, tail_op) says so; for matrices that is linalg.matrix_commutes, i.e.
+# np.allclose(m1 @ m2, m2 @ m1, atol=1e-8) with numpy's default rtol=1e-5: each swap may cost a commutator of up to ~1e-5 per entry
+# ("approximately commuting" by cirq.commutes' own contract).  The tolerance allows exactly that much per possible swap.
 reg(Row("insertion_sort_transformer", ("insertion_sort_transformer",), lambda c, o: cirq.transformers.insertion_sort_transformer(c, context=ctx(o)),
-        unitary=U(), records=M(), weight=3))
+        unitary=U(), records=M(), tol=lambda o, n: 2e-5 * n, weight=3))
 
 SCHEMAS = ["DEFAULT", "XX_PAIR", "X_XINV", "YY_PAIR", "Y_YINV",
            lambda: (cirq.Z, cirq.Z), lambda: (cirq.X, cirq.Y, cirq.Z), lambda: (cirq.Y ** -1, cirq.Y)]
